@@ -30,6 +30,7 @@ fn main() {
         "wire-history" => d_wire::history(&opts),
         "wire-conc" => d_wire::conc(&opts),
         "wire-fs" => d_wire::fs(&opts),
+        "wire-config" => d_wire::config(&opts),
         "conn-child" => d_conn::child(&opts),
         "random-worlds" => d_serve::random_worlds(&opts),
         other => {
